@@ -81,6 +81,8 @@ type RunSpec struct {
 	// else of phase one has come to rest (finished, failed, skipped) jobs Cut+1..J are enqueued - Enqueue meets
 	// dependencies that are long finished, failed and recorded, or still running - and the held bodies are
 	// released HeldRelUs microseconds later.
+	// ShareDeps: dependencies are windows of one shared array (see depsOf).
+	ShareDeps bool  `json:"sharedeps,omitempty"`
 	Cut       int   `json:"cut,omitempty"`
 	Held      []int `json:"held,omitempty"`
 	HeldRelUs int   `json:"heldrelus,omitempty"`
@@ -157,6 +159,21 @@ func genPhased(rng *rand.Rand, k int) RunSpec {
 			rs.Held = append(rs.Held, j)
 		}
 	}
+	if rng.Intn(2) == 0 {
+		rs.ShareDeps = true
+		for j := 2; j <= rs.J; j++ {
+			if len(rs.Deps[j-1]) == 0 {
+				continue
+			}
+			a := 1 + rng.Intn(j-1)
+			b := a + rng.Intn(j-a)
+			w := []int{}
+			for d := a; d <= b; d++ {
+				w = append(w, d)
+			}
+			rs.Deps[j-1] = w
+		}
+	}
 	rs.HeldRelUs = rng.Intn(1200)
 	if rng.Intn(2) == 0 {
 		rs.WaitUs = rng.Intn(600)
@@ -165,6 +182,30 @@ func genPhased(rng *rand.Rand, k int) RunSpec {
 	rs.PerturbP = []float64{0, 0.2}[rng.Intn(2)]
 	rs.PerturbMax = 30
 	return rs
+}
+
+// depsOf returns the Dependencies of job j. With ShareDeps a contiguous run of dependencies d..e is passed as
+// the window handles[d:e+1] of the caller's own array of job handles - the way a caller passes "the previous
+// layer" to several consumers - so that the slices of different jobs share one backing array at different
+// offsets; the scheduler must treat them as read-only.
+func depsOf(rs *RunSpec, handles []*scheduler.ScheduledJob, j int) []*scheduler.ScheduledJob {
+	ds := rs.Deps[j-1]
+	if rs.ShareDeps && len(ds) > 0 {
+		contiguous := true
+		for i := 1; i < len(ds); i++ {
+			if ds[i] != ds[i-1]+1 {
+				contiguous = false
+			}
+		}
+		if contiguous {
+			return handles[ds[0] : ds[len(ds)-1]+1 : ds[len(ds)-1]+1]
+		}
+	}
+	var deps []*scheduler.ScheduledJob
+	for _, d := range ds {
+		deps = append(deps, handles[d])
+	}
+	return deps
 }
 
 func (rs *RunSpec) held(j int) bool {
@@ -253,6 +294,22 @@ func genRun(rng *rand.Rand, k int, maxJ, maxN int) RunSpec {
 	}
 	if rs.Deps == nil {
 		rs.Deps, rs.Out, rs.Cls, rs.BodyUs, rs.EnqUs = [][]int{}, []string{}, []int{}, []int{}, []int{}
+	}
+	if rng.Intn(3) == 0 {
+		// dependencies as windows of the caller's array of handles (overlapping between jobs)
+		rs.ShareDeps = true
+		for j := 2; j <= rs.J; j++ {
+			if len(rs.Deps[j-1]) == 0 || rng.Intn(4) == 0 {
+				continue
+			}
+			a := 1 + rng.Intn(j-1)
+			b := a + rng.Intn(j-a)
+			w := []int{}
+			for d := a; d <= b; d++ {
+				w = append(w, d)
+			}
+			rs.Deps[j-1] = w
+		}
 	}
 	rs.Emit = rng.Intn(3) == 0
 	rs.EmitSleepUs = []int{0, 20, 40}[rng.Intn(3)]
@@ -896,10 +953,7 @@ func execRun(rs RunSpec, log *vt.APILog, col *vt.Collector, nostamp bool, deadli
 			if rs.Cancel2Mode == "atenq" && rs.Cancel2Arg == j {
 				x.doCancel2()
 			}
-			var deps []*scheduler.ScheduledJob
-			for _, d := range rs.Deps[j-1] {
-				deps = append(deps, handles[d])
-			}
+			deps := depsOf(&rs, handles, j)
 			if !nostamp {
 				log.Add(vt.APIEvent{Ev: "submit", Run: rs.Run, Job: j})
 			}
